@@ -306,7 +306,7 @@ int disasm_powerpc(
           {
             dot = ".";
           }
-          snprintf(instruction, length, "%s%s fp%d, fp%d, fp%d, fp%d", instr, dot, rd, ra, rc, rb);
+          snprintf(instruction, length, "%s%s fp%d, fp%d, fp%d, fp%d", instr, dot, rd, ra, (opcode >> 6) & 0x1f, rb);
           break;
         case OP_BF_FRA_FRB:
           bf = (opcode >> 23) & 0x7;
